@@ -26,7 +26,7 @@ CONSTANTS
   Prog,       \* [Clients -> Seq(op)]; op = [op |-> "Add", job |-> 1] ...
   Jobs,       \* set of job ids (positive ints)
   Prio,       \* [Jobs -> Int]
-  QKind,      \* "fifo" | "prio"
+  QKind,      \* "fifo" | "prio" | "pfifo" | "pprio" (the last two: acknowledging adapter, entries = serialized jobs)
   Nodes,      \* set of pool node ids (ints)
   DispSeq,    \* dispatcher ids in allocation order, e.g. <<"disp1", "disp2">>
   PGSeq,      \* pool goroutine ids in allocation order, e.g. <<"pg1", "pg2", "pg3">>
@@ -34,9 +34,17 @@ CONSTANTS
   Ratio,      \* min idle worker ratio (0 = not configured)
   Expiry,     \* BOOLEAN: idle worker expiry configured (remover runs)
   WithCtx,    \* BOOLEAN: worker configured with a context
-  MaxGen      \* bound on Restart generations
+  MaxGen,     \* bound on Restart generations
+  WK,         \* worker kind: "plain" | "err" | "result"
+  Outcome,    \* [Jobs -> "ok" | "err" | "panic"]: what the worker function does for the job
+  BatchOf,    \* [Jobs -> Nat]: 0 = single job, b > 0 = item of the AddAll batch b
+  Faults,     \* adapter calls refused: set of <<"enq"|"deq"|"ack", k>> (the k-th call of that kind, from 0)
+  MaxCrash    \* how many times the process may die (adapter queue kinds only)
 
 STOP == 0
+Adapter == QKind \in {"pfifo", "pprio"}
+Batches == ({BatchOf[j] : j \in Jobs} \cup UNION {{Prog[c][i].n : i \in {k \in DOMAIN Prog[c] : Prog[c][k].op = "AddAll"}} : c \in Clients}) \ {0}
+ItemsOf(b) == {j \in Jobs : BatchOf[j] = b}
 ReapSeq == [i \in 1..(MaxGen + 1) |-> "reap" \o ToString(i)]      \* one remover / listener per start()
 LisSeq == [i \in 1..(MaxGen + 1) |-> "ctx" \o ToString(i)]
 SeqRange(s) == {s[i] : i \in DOMAIN s}
@@ -59,6 +67,10 @@ VARIABLES
    mx        holder of w.mx ("none" or a process);  cond: processes parked in Cond.Wait
    q         queue contents Seq(job);  qclosed
    idle      idle list Seq(node);  nch: node -> Seq(payload), capacity 1;  cache: nodes in sync.Pool;  used: nodes created
+   bhd       batches whose handle a client holds;  gcount: batch -> WgCounter.count;  gwg: batch -> its WaitGroup;  gclosed: batch -> number of times its stream was closed
+   rsent     single jobs whose Response holds an unread value;  rclosed: single jobs whose Response is closed
+   unacked   adapter: delivered entries <<ack id, job>> not yet acknowledged;  acked: acknowledged jobs;  nack: ack ids issued;
+   calls     adapter calls made so far per kind;  badack: acknowledgements with an id the adapter does not hold;  crashes
    hd        jobs whose handle a client holds (their Add has returned true)
    jst       job -> "created"|"queued"|"processing"|"finished"|"closed";  jwg: job -> WaitGroup counter
    msub, mcomp, msucc, mfail
@@ -82,7 +94,7 @@ HasOp(c) == S.ip[c] <= Len(Prog[c])
 
 \* queue order: fifo appends; prio keeps the sequence sorted by (priority, insertion)
 Enq(s, j) ==
-  IF QKind = "fifo" THEN Append(s, j)
+  IF QKind \in {"fifo", "pfifo"} THEN Append(s, j)
   ELSE LET k == Cardinality({i \in DOMAIN s : Prio[s[i]] <= Prio[j]})
        IN SubSeq(s, 1, k) \o <<j>> \o SubSeq(s, k + 1, Len(s))
 
@@ -105,7 +117,9 @@ Init ==
           sigClosed |-> [g \in Gens |-> FALSE],
           mx |-> "none", lc |-> "none", cond |-> {}, q |-> <<>>, qclosed |-> FALSE,
           idle |-> <<1>>, nch |-> [n \in Nodes |-> <<>>], cache |-> {}, used |-> {1},
-          jst |-> [j \in Jobs |-> "created"], jwg |-> [j \in Jobs |-> 1], hd |-> {}, nohd |-> {},
+          jst |-> [j \in Jobs |-> "created"], jwg |-> [j \in Jobs |-> 1], hd |-> {}, nohd |-> {}, bhd |-> {},
+          gcount |-> [b \in Batches |-> 0], gwg |-> [b \in Batches |-> 0], gclosed |-> [b \in Batches |-> 0], rsent |-> {}, rclosed |-> {},
+          unacked |-> {}, acked |-> {}, nack |-> 0, calls |-> [enq |-> 0, deq |-> 0, ack |-> 0], badack |-> 0, crashes |-> 0,
           msub |-> 0, mcomp |-> 0, msucc |-> 0, mfail |-> 0,
           ctxGen |-> 0, ctxCanc |-> {}, pcancel |-> FALSE, tick |-> IF Expiry THEN {0} ELSE {},
           pc |-> [p \in Procs |-> IF p \in Clients THEN "call"
@@ -165,35 +179,84 @@ HPop(p, res) == IF Returns(p) /\ p \in Clients THEN HFin(p, res) ELSE H
 
 AtCall(c, op) == c \in Clients /\ S.pc[c] = "call" /\ HasOp(c) /\ Op(c).op = op
 
+\* What follows a successful markClosed of job loc[p].j (pc "jclose.marked"), for clients and pool goroutines alike:
+\* single job: wg.Done, then (err/result job) Response.Close;  batch item: WgCounter.Done = compare-and-swap of the count,
+\* wg.Done, and the one call that took the count to zero closes the batch's stream.  Continuation on the stack.
+Ret(s, p) == IF p \in Clients THEN Pop(s, p) ELSE [s EXCEPT !.pc[p] = Head(s.stk[p]), !.stk[p] = Tail(@)]
+CT_Marked(p) ==
+  /\ S.pc[p] = "jclose.marked"
+  /\ LET j == S.loc[p].j  b == BatchOf[j]
+         s0 == IF p \in Clients /\ Op(p).op = "Add" THEN [S EXCEPT !.nohd = @ \cup {j}] ELSE S IN
+     /\ S' = IF Adapter /\ p \in Clients THEN Ret(s0, p)                       \* a rejected persistent Add closes a local object
+             ELSE IF b = 0 THEN (IF WK = "plain" \/ Adapter THEN Ret([s0 EXCEPT !.jwg[j] = @ - 1], p)
+                                 ELSE [s0 EXCEPT !.jwg[j] = @ - 1, !.pc[p] = "resp.close"])
+             ELSE [s0 EXCEPT !.gcount[b] = @ - 1, !.loc[p].n = S.gcount[b], !.pc[p] = "wgc.cas"]
+     /\ H' = IF p \in Clients /\ Op(p).op = "AddAll" THEN [H EXCEPT !.rejected = @ \cup {j}]
+             ELSE IF p \in Clients /\ S'.pc[p] \in {"call", "done"} THEN HFin(p, IF Op(p).op = "Add" THEN "rej" ELSE "nil")
+             ELSE H
+CT_Wgc(p) ==
+  /\ S.pc[p] = "wgc.cas"
+  /\ LET b == BatchOf[S.loc[p].j]  s1 == [S EXCEPT !.gwg[b] = @ - 1] IN
+       S' = IF S.loc[p].n = 1 /\ WK # "plain" THEN [s1 EXCEPT !.pc[p] = "resp.close"] ELSE Ret(s1, p)
+  /\ H' = IF p \in Clients /\ S'.pc[p] \in {"call", "done"} THEN HFin(p, "nil") ELSE H
+CT_RespClose(p) ==
+  /\ S.pc[p] = "resp.close"
+  /\ LET j == S.loc[p].j  b == IF j = 0 THEN 0 ELSE BatchOf[j] IN
+       S' = Ret(IF j = 0 THEN [S EXCEPT !.gclosed[S.loc[p].n] = @ + 1]
+                ELSE IF b = 0 THEN [S EXCEPT !.rclosed = @ \cup {j}] ELSE [S EXCEPT !.gclosed[b] = @ + 1], p)
+  /\ H' = IF p \in Clients /\ S'.pc[p] \in {"call", "done"} THEN HFin(p, "nil") ELSE H
+
+\* [changeStatus(queued); Enqueue] of one job (Add, or one item of AddAll)
+EnqStep(s, c, j) ==
+  IF Adapter
+    THEN (IF s.qclosed \/ <<"enq", s.calls.enq>> \in Faults
+            THEN [s EXCEPT !.calls.enq = @ + 1, !.pc[c] = "add.enq", !.loc[c].ok = FALSE, !.loc[c].j = j]
+            ELSE [s EXCEPT !.calls.enq = @ + 1, !.q = Enq(@, j), !.pc[c] = "add.enq", !.loc[c].ok = TRUE, !.loc[c].j = j])
+  ELSE IF s.qclosed
+    THEN [s EXCEPT !.jst[j] = "queued", !.pc[c] = "add.enq", !.loc[c].ok = FALSE, !.loc[c].j = j]
+    ELSE [s EXCEPT !.jst[j] = "queued", !.q = Enq(@, j), !.pc[c] = "add.enq", !.loc[c].ok = TRUE, !.loc[c].j = j]
 C_Add(c) ==
   /\ AtCall(c, "Add")
-  /\ LET j == Op(c).job IN
-       S' = IF S.qclosed
-              THEN [S EXCEPT !.jst[j] = "queued", !.pc[c] = "add.enq", !.loc[c].ok = FALSE, !.loc[c].j = j]
-              ELSE [S EXCEPT !.jst[j] = "queued", !.q = Enq(@, j), !.pc[c] = "add.enq", !.loc[c].ok = TRUE, !.loc[c].j = j]
+  /\ S' = EnqStep(S, c, Op(c).job)
   /\ UNCHANGED H
 
-\* rejected: j.Close() = markClosed, (hook), wg.Done
+\* AddAll: the group (counter = size; the stream of an empty batch is closed at once), then item by item
+SeqOfSet(X) == LET F[k \in 0..Cardinality(X)] == IF k = 0 THEN <<>> ELSE LET m == CHOOSE x \in X : Cardinality({y \in X : y < x}) = k - 1 IN Append(F[k - 1], m)
+               IN F[Cardinality(X)]
+C_AddAll(c) ==
+  /\ AtCall(c, "AddAll")
+  /\ LET b == Op(c).n  items == SeqOfSet(ItemsOf(b))
+         s1 == [S EXCEPT !.gcount[b] = Len(items), !.gwg[b] = Len(items), !.gclosed[b] = 0,
+                         !.loc[c].jobs = items, !.loc[c].snap = <<>>, !.pc[c] = "i.addall"] IN
+       \* the stream of an empty batch is closed at creation (nobody else would)
+       S' = IF Len(items) = 0 /\ WK # "plain" THEN [s1 EXCEPT !.loc[c].j = 0, !.loc[c].n = b, !.stk[c] = <<"i.addall">>, !.pc[c] = "resp.close"] ELSE s1
+  /\ UNCHANGED H
+I_AddAllNext(c) ==
+  /\ c \in Clients /\ S.pc[c] = "i.addall"
+  /\ IF S.loc[c].jobs = <<>>
+       THEN /\ S' = Fin([S EXCEPT !.bhd = @ \cup {Op(c).n}], c)
+            /\ H' = [H EXCEPT !.accepted = @ \cup Range(S.loc[c].snap)]
+       ELSE /\ S' = [EnqStep(S, c, Head(S.loc[c].jobs)) EXCEPT !.loc[c].jobs = Tail(@), !.stk[c] = <<"i.addall">>]
+            /\ UNCHANGED H
+
+\* rejected: j.Close() = markClosed, (hook), then the close effect
 C_AddRejected(c) ==
   /\ c \in Clients /\ S.pc[c] = "add.enq" /\ ~S.loc[c].ok
-  /\ S' = [S EXCEPT !.jst[S.loc[c].j] = "closed", !.pc[c] = "jclose.marked"]
-  /\ UNCHANGED H
+  /\ IF QKind = "pprio" THEN S' = Fin(S, c) /\ H' = HFin(c, "rej")         \* nothing to close, the job object is local
+     ELSE S' = [S EXCEPT !.jst[S.loc[c].j] = IF Adapter THEN @ ELSE "closed", !.pc[c] = "jclose.marked"] /\ UNCHANGED H
 
-\* accepted: incSubmitted, notify (RLock), return
+\* accepted: incSubmitted, notify (RLock), return (or the next item)
 C_AddNotify(c) ==
   /\ c \in Clients /\ S.pc[c] = "add.enq" /\ S.loc[c].ok /\ MxFree
-  /\ S' = Fin(NotifyS([S EXCEPT !.msub = @ + 1, !.hd = @ \cup {S.loc[c].j}]), c)
-  /\ H' = HFin(c, "ok")
-
-\* after markClosed succeeded: wg.Done, return (shared by Close, the rejected Add and Purge)
-J_Done(c) ==
-  /\ c \in Clients /\ S.pc[c] = "jclose.marked"
-  /\ S' = Pop([S EXCEPT !.jwg[S.loc[c].j] = @ - 1, !.nohd = IF Op(c).op = "Add" THEN @ \cup {S.loc[c].j} ELSE @], c)
-  /\ H' = HPop(c, IF Op(c).op = "Add" THEN "rej" ELSE "nil")
+  /\ IF Op(c).op = "AddAll"
+       THEN /\ S' = Pop(NotifyS([S EXCEPT !.msub = @ + 1, !.loc[c].snap = Append(@, S.loc[c].j)]), c)
+            /\ UNCHANGED H
+       ELSE /\ S' = Fin(NotifyS([S EXCEPT !.msub = @ + 1, !.hd = IF Adapter THEN @ ELSE @ \cup {S.loc[c].j}]), c)
+            /\ H' = HFin(c, "ok")
 
 \* an op on the handle of a job whose Add was rejected: there is no handle, nothing is called
 C_NoHandle(c) ==
-  /\ c \in Clients /\ S.pc[c] = "call" /\ HasOp(c) /\ Op(c).op \in {"Close", "Wait"} /\ Op(c).job \in S.nohd
+  /\ c \in Clients /\ S.pc[c] = "call" /\ HasOp(c) /\ Op(c).op \in {"Close", "Wait", "Result"} /\ Op(c).job \in S.nohd
   /\ S' = Fin(S, c)
   /\ H' = [H EXCEPT !.ctl = @]
 
@@ -215,6 +278,25 @@ C_Nop(c) ==
   /\ AtCall(c, "Nop")
   /\ S' = Fin(S, c)
   /\ H' = H
+
+\* Result()/Err(): a plain worker's handle only waits; otherwise the value sent by the wrapper, or the close
+C_Result(c) ==
+  /\ AtCall(c, "Result") /\ Op(c).job \in S.hd
+  /\ LET j == Op(c).job IN
+       IF WK = "plain" THEN S.jwg[j] = 0 /\ S' = Fin(S, c)
+       ELSE \/ j \in S.rsent /\ S' = Fin([S EXCEPT !.rsent = @ \ {j}], c)
+            \/ j \notin S.rsent /\ j \in S.rclosed /\ S' = Fin(S, c)
+  /\ H' = [HFin(c, "nil") EXCEPT !.viol = @ \cup (IF Settled(Op(c).job) THEN {} ELSE {"C05_NotEarly"})]
+C_BatchWait(c) ==
+  /\ AtCall(c, "BatchWait") /\ Op(c).n \in S.bhd /\ S.gwg[Op(c).n] = 0
+  /\ S' = Fin(S, c)
+  /\ H' = [HFin(c, "nil") EXCEPT !.viol = @ \cup (IF \A j \in ItemsOf(Op(c).n) : Settled(j) THEN {} ELSE {"C05_BatchNotEarly"})]
+\* reading the stream to its end: possible once it is closed (a plain worker's batch has no stream: same as Wait)
+C_BatchRead(c) ==
+  /\ AtCall(c, "BatchRead") /\ Op(c).n \in S.bhd
+  /\ IF WK = "plain" THEN S.gwg[Op(c).n] = 0 ELSE S.gclosed[Op(c).n] >= 1
+  /\ S' = Fin(S, c)
+  /\ H' = [HFin(c, "nil") EXCEPT !.viol = @ \cup (IF \A j \in ItemsOf(Op(c).n) : Settled(j) THEN {} ELSE {"C05_BatchNotEarly"})]
 
 C_QClose(c) ==
   /\ AtCall(c, "QClose")
@@ -284,9 +366,13 @@ R_Notify(p) ==
 ---- \* TunePool
 C_Tune(c) ==
   /\ AtCall(c, "TunePool")
-  /\ LET n == Op(c).n IN
-       IF S.ws # "running" \/ S.conc = n THEN S' = Fin(S, c) /\ UNCHANGED H
-       ELSE /\ S' = [S EXCEPT !.conc = n, !.loc[c].old = S.conc, !.loc[c].n = n, !.pc[c] = "tune.stored"]
+  /\ S' = IF S.ws # "running" THEN Fin(S, c) ELSE [S EXCEPT !.pc[c] = "tune.checked"]
+  /\ UNCHANGED H
+T_Store(p) ==
+  /\ S.pc[p] = "tune.checked"
+  /\ LET n == Op(p).n IN
+       IF S.conc = n THEN S' = Fin(S, p) /\ UNCHANGED H
+       ELSE /\ S' = [S EXCEPT !.conc = n, !.loc[p].old = S.conc, !.loc[p].n = n, !.pc[p] = "tune.stored"]
             /\ H' = [H EXCEPT !.concMax = Max({@, n})]
 T_After(p) ==
   /\ S.pc[p] = "tune.stored"
@@ -335,12 +421,24 @@ C_WaitAndStop(c) ==
   /\ H' = [H EXCEPT !.ctl = @ + 1]
 \* Stop(): the switch on the status
 I_Stop(p) ==
-  /\ S.pc[p] = "i.stop" /\ S.lc \in {"none", p}
+  /\ S.pc[p] = "i.stop" /\ S.lc = "none"
+  /\ S' = [S EXCEPT !.lc = p, !.loc[p].res = "stop", !.pc[p] = "lifecycle.locked"]
+  /\ UNCHANGED H
+\* under the lifecycle mutex: (listener: is my context still the worker's?) then the switch on the status
+LC_Switch(p) ==
+  /\ S.pc[p] = "lifecycle.locked"
+  /\ p \in Listeners => MxFree
   /\ LET rel == [S EXCEPT !.lc = "none"] IN
-     CASE S.ws = "stopped" -> S' = Pop(rel, p) /\ H' = HPop(p, "nil")
-       [] S.ws = "running" -> S' = [S EXCEPT !.lc = p, !.pc[p] = "i.pause", !.stk[p] = <<"i.wuf", "i.stop2">> \o @] /\ UNCHANGED H
-       [] S.ws = "paused" -> S' = [S EXCEPT !.lc = p, !.pc[p] = "i.wuf", !.stk[p] = <<"i.stop2">> \o @] /\ UNCHANGED H
-       [] OTHER -> S' = Pop(rel, p) /\ H' = HPop(p, "ErrNotRunningWorker")
+     IF S.loc[p].res = "stop" THEN
+       IF p \in Listeners /\ S.ctxGen # S.loc[p].g THEN S' = [rel EXCEPT !.pc[p] = "dead"] /\ H' = [H EXCEPT !.ctl = @ - 1]
+       ELSE CASE S.ws = "stopped" -> S' = Pop(rel, p) /\ H' = HPop(p, "nil")
+              [] S.ws = "running" -> S' = [S EXCEPT !.pc[p] = "i.pause", !.stk[p] = <<"i.wuf", "i.stop2">> \o @] /\ UNCHANGED H
+              [] S.ws = "paused" -> S' = [S EXCEPT !.pc[p] = "i.wuf", !.stk[p] = <<"i.stop2">> \o @] /\ UNCHANGED H
+              [] OTHER -> S' = Pop(rel, p) /\ H' = HPop(p, "ErrNotRunningWorker")
+     ELSE /\ UNCHANGED H
+          /\ CASE S.ws = "running" -> S' = [S EXCEPT !.pc[p] = "i.pause", !.stk[p] = <<"i.wuf", "i.rs.nodes", "i.rs2">>]
+               [] S.ws = "paused" -> S' = [S EXCEPT !.pc[p] = "i.wuf", !.stk[p] = <<"i.rs.nodes", "i.rs2">>]
+               [] OTHER -> S' = [S EXCEPT !.pc[p] = "i.rs2"]
 I_Stop2(p) ==
   /\ S.pc[p] = "i.stop2"
   /\ S' = [S EXCEPT !.pc[p] = "stop.waited"]
@@ -381,10 +479,8 @@ C_Restart(c) ==
   /\ H' = [H EXCEPT !.ctl = @ + 1, !.epoch = "open", !.pauseStarts = 0]
 I_Restart(p) ==
   /\ S.pc[p] = "i.restart" /\ S.lc = "none"
+  /\ S' = [S EXCEPT !.lc = p, !.loc[p].res = "restart", !.pc[p] = "lifecycle.locked"]
   /\ UNCHANGED H
-  /\ CASE S.ws = "running" -> S' = [S EXCEPT !.lc = p, !.pc[p] = "i.pause", !.stk[p] = <<"i.wuf", "i.rs.nodes", "i.rs2">>]
-       [] S.ws = "paused" -> S' = [S EXCEPT !.lc = p, !.pc[p] = "i.wuf", !.stk[p] = <<"i.rs.nodes", "i.rs2">>]
-       [] OTHER -> S' = [S EXCEPT !.lc = p, !.pc[p] = "i.rs2"]
 I_RsNodes(p) ==
   /\ S.pc[p] = "i.rs.nodes"
   /\ S' = [S EXCEPT !.loc[p].snap = S.idle, !.pc[p] = "i.stopall"]
@@ -467,11 +563,11 @@ X_Fire(x) ==
   /\ x \in Listeners /\ S.pc[x] = "ctx.wait" /\ CtxDone(S.loc[x].g)
   /\ S' = [S EXCEPT !.pc[x] = "ctx.fired"]
   /\ UNCHANGED H
-\* stop(c): under the lifecycle mutex, only the listener of the worker's current context stops the worker
+\* stop(c): the listener takes the lifecycle mutex like any Stop; whether its context is still current is decided under it
 X_Check(x) ==
-  /\ x \in Listeners /\ S.pc[x] = "ctx.fired" /\ S.lc = "none" /\ MxFree
-  /\ S' = IF S.ctxGen = S.loc[x].g THEN [Dirty(S) EXCEPT !.lc = x, !.pc[x] = "i.stop"] ELSE [S EXCEPT !.pc[x] = "dead"]
-  /\ H' = IF S.ctxGen = S.loc[x].g THEN [H EXCEPT !.ctl = @ + 1] ELSE H
+  /\ x \in Listeners /\ S.pc[x] = "ctx.fired" /\ S.lc = "none"
+  /\ S' = [Dirty(S) EXCEPT !.lc = x, !.loc[x].res = "stop", !.pc[x] = "lifecycle.locked"]
+  /\ H' = [H EXCEPT !.ctl = @ + 1]
 
 ---- \* idle-worker remover
 RP_Tick(r) ==
@@ -571,6 +667,12 @@ D_Deq(d) ==
   /\ d \in Disps /\ S.pc[d] = "i.disp.lock" /\ MxFree
   /\ S' = IF S.chanNil \/ S.gen # S.loc[d].g THEN BackOut(d, "handover")
           ELSE IF Len(S.q) = 0 THEN BackOut(d, "nil")
+          ELSE IF Adapter /\ <<"deq", S.calls.deq>> \in Faults THEN [BackOut(d, "nil") EXCEPT !.calls.deq = @ + 1]
+          ELSE IF Adapter
+            THEN \* DequeueWithAckId: the entry stays with the adapter as delivered-unacknowledged; the parsed job is a new object
+                 [S EXCEPT !.loc[d].j = Head(S.q), !.q = Tail(@), !.calls.deq = @ + 1, !.nack = @ + 1,
+                           !.unacked = @ \cup {<<S.nack + 1, Head(S.q)>>}, !.loc[d].old = S.nack + 1,
+                           !.jst[Head(S.q)] = "created", !.jwg[Head(S.q)] = 1, !.pc[d] = "disp.deq"]
           ELSE [S EXCEPT !.loc[d].j = Head(S.q), !.q = Tail(@), !.pc[d] = "disp.deq"]
   /\ UNCHANGED H
 D_HandOver(d) ==
@@ -626,22 +728,37 @@ S_Exit(g) ==
   /\ S' = [S EXCEPT !.pc[g] = "wf.exit"]
   /\ H' = [H EXCEPT !.exits[S.loc[g].j] = @ + 1,
                     !.viol = @ \cup (IF S.jst[S.loc[g].j] # "processing" THEN {"C16_InWF"} ELSE {})]
-\* the wrapper's bookkeeping, then changeStatus(finished)
+\* the wrapper's bookkeeping: the outcome is sent to the job's Response, metrics ...
 S_Fin(g) ==
   /\ g \in PGs /\ S.pc[g] = "wf.exit"
-  /\ S' = [S EXCEPT !.msucc = @ + 1, !.jst[S.loc[g].j] = "finished", !.pc[g] = "serve.fin"]
+  /\ LET j == S.loc[g].j
+         failed == Outcome[j] = "panic" \/ (Outcome[j] = "err" /\ WK # "plain")
+         sends == BatchOf[j] = 0 /\ WK # "plain" /\ (failed \/ WK = "result")
+     IN S' = [S EXCEPT !.msucc = IF failed THEN @ ELSE @ + 1, !.mfail = IF failed THEN @ + 1 ELSE @,
+                       !.rsent = IF sends THEN @ \cup {j} ELSE @, !.pc[g] = "serve.wfdone"]
+  /\ UNCHANGED H
+\* ... then changeStatus(finished)
+S_Fin2(g) ==
+  /\ g \in PGs /\ S.pc[g] = "serve.wfdone"
+  /\ S' = [S EXCEPT !.jst[S.loc[g].j] = "finished", !.pc[g] = "serve.fin"]
   /\ UNCHANGED H
 \* j.Close(): markClosed; an error is offered on the error channel (RLock)
+AckIdOf(j) == LET ids == {u[1] : u \in {x \in S.unacked : x[2] = j}} IN IF ids = {} THEN 0 ELSE Max(ids)
 S_Close(g) ==
   /\ g \in PGs /\ S.pc[g] = "serve.fin"
   /\ UNCHANGED H
-  /\ IF S.jst[S.loc[g].j] \in {"processing", "closed"}
+  /\ LET j == S.loc[g].j IN
+     IF S.jst[j] \in {"processing", "closed"}
        THEN MxFree /\ S' = [S EXCEPT !.pc[g] = "serve.closed"]
-       ELSE S' = [S EXCEPT !.jst[S.loc[g].j] = "closed", !.pc[g] = "jclose.marked"]
-S_Done(g) ==
-  /\ g \in PGs /\ S.pc[g] = "jclose.marked"
-  /\ S' = [S EXCEPT !.jwg[S.loc[g].j] = @ - 1, !.pc[g] = "serve.closed"]
-  /\ UNCHANGED H
+     ELSE IF Adapter
+       THEN \* ack(): Acknowledge(ackId) on the adapter; refused => error, the job stays Finished and unacknowledged
+            IF <<"ack", S.calls.ack>> \in Faults
+              THEN MxFree /\ S' = [S EXCEPT !.calls.ack = @ + 1, !.pc[g] = "serve.closed"]
+              ELSE S' = [S EXCEPT !.calls.ack = @ + 1,
+                                  !.badack = IF AckIdOf(j) = 0 THEN @ + 1 ELSE @,
+                                  !.unacked = @ \ {<<AckIdOf(j), j>>}, !.acked = @ \cup {j},
+                                  !.jst[j] = "closed", !.pc[g] = "jclose.marked", !.stk[g] = <<"serve.closed">>]
+     ELSE S' = [S EXCEPT !.jst[j] = "closed", !.pc[g] = "jclose.marked", !.stk[g] = <<"serve.closed">>]
 \* freePoolNode: keep the node, or stop the own goroutine
 S_Free(g) ==
   /\ g \in PGs /\ S.pc[g] = "serve.closed"
@@ -661,18 +778,36 @@ S_Notify(g) ==
   /\ UNCHANGED H
 
 -----------------------------------------------------------------------------
-ClientStep(c) == C_Add(c) \/ C_AddRejected(c) \/ C_AddNotify(c) \/ J_Done(c) \/ C_Close(c) \/ C_Wait(c) \/ C_QClose(c)
+\* the process dies (any state is a crash point); the adapter keeps pending, delivered-unacknowledged and acknowledged entries;
+\* after recovery (unacknowledged entries are pending again, oldest first) a fresh worker is bound to it: no client call is needed
+Redeliver == SeqOfSet({u[2] : u \in S.unacked})
+Crash ==
+  /\ Adapter /\ S.crashes < MaxCrash
+  /\ S' = [S EXCEPT !.ws = "running", !.cur = 0, !.conc = Conc0, !.gen = 0, !.chanNil = FALSE,
+                    !.sigTok = [g \in Gens |-> IF g = 0 THEN 1 ELSE 0], !.sigClosed = [g \in Gens |-> FALSE],
+                    !.mx = "none", !.lc = "none", !.cond = {}, !.q = Redeliver \o S.q, !.unacked = {}, !.qclosed = FALSE,
+                    !.idle = <<1>>, !.nch = [n \in Nodes |-> <<>>], !.cache = {}, !.used = {1},
+                    !.msub = 0, !.mcomp = 0, !.msucc = 0, !.mfail = 0, !.tick = IF Expiry THEN {0} ELSE {},
+                    !.pc = [p \in Procs |-> IF p \in Clients THEN "done" ELSE IF p = DispSeq[1] THEN "loop.start" ELSE IF p = PGSeq[1] THEN "recv"
+                                             ELSE IF p = ReapSeq[1] /\ Expiry THEN "reap.wait" ELSE "unborn"],
+                    !.stk = [p \in Procs |-> <<>>],
+                    !.loc = [p \in Procs |-> IF p = PGSeq[1] THEN [NoLoc EXCEPT !.node = 1] ELSE NoLoc],
+                    !.crashes = @ + 1]
+  /\ H' = [H EXCEPT !.epoch = "open", !.ctl = 0, !.enters = H.exits]      \* what was in flight is simply gone
+
+ClientStep(c) == C_Add(c) \/ C_AddRejected(c) \/ C_AddNotify(c) \/ C_Close(c) \/ C_Wait(c) \/ C_QClose(c)
                  \/ C_WUF(c) \/ C_Pause(c) \/ C_Resume(c) \/ C_Tune(c) \/ C_Purge(c) \/ C_Stop(c) \/ C_WaitAndStop(c)
-                 \/ C_Restart(c) \/ C_CancelCtx(c) \/ C_Nop(c) \/ C_NoHandle(c)
+                 \/ C_Restart(c) \/ C_CancelCtx(c) \/ C_Nop(c) \/ C_NoHandle(c) \/ C_AddAll(c) \/ I_AddAllNext(c)
+                 \/ C_Result(c) \/ C_BatchWait(c) \/ C_BatchRead(c)
 \* steps of sub-procedures that clients and the context listener share
-SubStep(p) == I_Wuf(p) \/ W_Cond(p) \/ W_Park(p) \/ W_Wake(p) \/ I_Pause(p) \/ P_Store(p) \/ R_Store(p) \/ R_Notify(p)
+SubStep(p) == CT_Marked(p) \/ CT_Wgc(p) \/ CT_RespClose(p) \/ LC_Switch(p) \/ T_Store(p) \/ I_Wuf(p) \/ W_Cond(p) \/ W_Park(p) \/ W_Wake(p) \/ I_Pause(p) \/ P_Store(p) \/ R_Store(p) \/ R_Notify(p)
               \/ T_After(p) \/ T_Loop(p) \/ T_Stop(p) \/ U_Deq(p) \/ U_Close(p)
               \/ I_Stop(p) \/ I_Stop2(p) \/ S_Chans(p) \/ S_Nodes(p) \/ I_StopAll(p) \/ SA_Stop(p) \/ SP_Fin(p)
               \/ I_Restart(p) \/ I_RsNodes(p) \/ I_Rs2(p) \/ RS_Close(p) \/ RS_New(p) \/ RS_Reset(p) \/ RS_Start(p)
               \/ I_Start(p) \/ ST_Go(p) \/ ST_Go2(p) \/ ST_Push(p) \/ ST_Fin(p) \/ ST_Notify(p)
 DispStep(d) == D_Take(d) \/ D_Woken(d) \/ D_Exit(d) \/ D_Check(d) \/ D_Check2(d) \/ D_Reserve(d) \/ D_Recheck(d) \/ D_Deq(d) \/ D_HandOver(d) \/ D_Proc(d) \/ D_Skip(d) \/ D_Node(d) \/ D_Send(d)
                \/ Rel_Eval(d) \/ Rel_Bcast(d)
-PoolStep(g) == S_Recv(g) \/ S_Enter(g) \/ S_Exit(g) \/ S_Fin(g) \/ S_Close(g) \/ S_Done(g) \/ S_Free(g) \/ S_Dec(g) \/ S_Notify(g)
+PoolStep(g) == S_Recv(g) \/ S_Enter(g) \/ S_Exit(g) \/ S_Fin(g) \/ S_Close(g) \/ S_Fin2(g) \/ CT_Marked(g) \/ CT_Wgc(g) \/ CT_RespClose(g) \/ S_Free(g) \/ S_Dec(g) \/ S_Notify(g)
                \/ Rel_Eval(g) \/ Rel_Bcast(g)
 ReapStep(r) == RP_Tick(r) \/ RP_Len(r) \/ RP_Next(r) \/ RP_Stop(r) \/ RP_Cont(r)
 LisStep(x) == X_Fire(x) \/ X_Check(x) \/ SubStep(x)
@@ -682,7 +817,7 @@ ProcStep(p) == \/ p \in Clients /\ (ClientStep(p) \/ SubStep(p))
                \/ p \in PGs /\ PoolStep(p)
                \/ p \in Reapers /\ ReapStep(p)
                \/ p \in Listeners /\ LisStep(p)
-Next == \E p \in Procs : ProcStep(p)
+Next == (\E p \in Procs : ProcStep(p)) \/ Crash
 Internal == \E p \in Procs \ Clients : ProcStep(p)
 
 Spec == Init /\ [][Next]_vars
